@@ -711,6 +711,8 @@ theorem whitelist_inv {s s' : State} {app asset : Nat} (hL : LInv s) (hC : CInvD
   split at h; · simp at h
   split at h; · simp at h
   split at h; · simp at h
+  split at h; · simp at h
+  split at h; · simp at h
   rename_i hnone
   simp at h; subst h
   refine ⟨⟨hL.idsLe, hL.netNonneg, ?_, ?_, idsInvS_putLookupNil hL.ids,
@@ -735,6 +737,8 @@ theorem create_inv {s s' : State} {u app asset : Nat} {amt : Int} (hL : LInv s) 
   simp only [step] at h
   split at h; · simp at h
   rename_i hamt
+  split at h; · simp at h
+  split at h; · simp at h
   split at h; · simp at h
   split at h; · simp at h
   split at h; · simp at h
@@ -787,6 +791,8 @@ theorem deposit_inv {s s' : State} {u app asset id : Nat} {amt : Int} {rw : Rw} 
   simp only [step] at h
   split at h; · simp at h
   rename_i hvb
+  split at h; · simp at h
+  split at h; · simp at h
   split at h; · simp at h
   rename_i l hg
   obtain ⟨hl, hasset, _, happ, hlk⟩ := lockerGuards_spec hg
@@ -1134,8 +1140,8 @@ theorem Bank.send_none {b : Bank} {src dst : Acct} {d : Nat} {x : Int} (h : Bank
     · right; assumption
     · simp at h
 
-theorem lsrIter_inv {s s' : State} {app asset id : Nat} {rw : Rw} {cont : Bool} (hL : LInv s) (hC : CInvD D s) (hok : rw.ok)
-    (hkey : HasKey s app asset id) (h : lsrIter s app asset id rw = some (s', cont)) :
+theorem lsrIter_inv {s s' : State} {app asset id : Nat} {rw : Rw} {res : IterRes} (hL : LInv s) (hC : CInvD D s) (hok : rw.ok)
+    (hkey : HasKey s app asset id) (h : lsrIter s app asset id rw = some (s', res)) :
     LInv s' ∧ CInvD D s' ∧ ((∀ a, D a = 0) → Delta s s') ∧ (∀ id', HasKey s app asset id' → HasKey s' app asset id') ∧
     (∀ k, (Store.get s'.lookup k).isSome = (Store.get s.lookup k).isSome) := by
   obtain ⟨l, hl, happ, hasset⟩ := hkey
@@ -1220,8 +1226,8 @@ theorem lsrLoop_inv {app asset : Nat} (ids : List Nat) :
       obtain ⟨hL1, hC1, hD1, hk1, _⟩ := lsrIter_inv hL hC hok0 (hkeys id (by simp)) hit
       rw [hit] at h
       cases cont with
-      | false => simp at h; subst h; exact ⟨hL1, hC1, hD1⟩
-      | true =>
+      | stop => simp at h; subst h; exact ⟨hL1, hC1, hD1⟩
+      | next paid =>
         simp only at h
         obtain ⟨a, b, c⟩ := ih hL1 hC1 (fun rw hrw => hok rw (List.mem_of_mem_tail hrw))
           (fun id' hid' => hk1 id' (hkeys id' (List.mem_cons_of_mem _ hid'))) h
@@ -1240,6 +1246,175 @@ theorem lsrChange_inv {s s' : State} {app asset : Nat} {rws : List Rw} (hL : LIn
     simp at hk
     exact ⟨l, hl, hk.1, hk.2⟩
 
+
+/-! ## configuration changes and auction start decisions -/
+
+theorem LInv.frame' {s s' : State} (h : LInv s) (h1 : s'.lockers = s.lockers) (h2 : s'.lookup = s.lookup)
+    (h3 : s'.lastId = s.lastId) (h4 : s'.bank = s.bank) : LInv s' := by
+  refine ⟨?_, ?_, ?_, ?_, ?_, ?_⟩
+  · rw [h1, h3]; exact h.idsLe
+  · rw [h1]; exact h.netNonneg
+  · intro k; have := h.depEq k; unfold dep at this ⊢; rw [h1, h2]; exact this
+  · intro a; have := h.custody a; unfold bal at this ⊢; rw [h2, h4]; exact this
+  · rw [h1, h2]; exact h.ids
+  · rw [h2]; exact h.depNonneg
+
+theorem CInvD.frame' {s s' : State} (h : CInvD D s) (h1 : s'.fees = s.fees) (h2 : s'.bank = s.bank) : CInvD D s' := by
+  refine ⟨?_, ?_⟩
+  · rw [h1]; exact h.nonneg
+  · intro a; have := h.custody a; unfold bal at this ⊢; rw [h1, h2]; exact this
+
+theorem config_inv {s : State} (c : Cfg) (hL : LInv s) (hC : CInvD D s) :
+    LInv (applyCfg s c) ∧ CInvD D (applyCfg s c) ∧ Delta s (applyCfg s c) := by
+  cases c <;> exact ⟨hL.frame' rfl rfl rfl rfl, hC.frame' rfl rfl, Delta.of_eq rfl (fun _ => rfl)⟩
+
+theorem setActive_inv {s : State} (k : Nat × Nat) (m : AMap) (hL : LInv s) (hC : CInvD D s) :
+    LInv (setActive s k m) ∧ CInvD D (setActive s k m) ∧ Delta s (setActive s k m) :=
+  ⟨hL.frame' rfl rfl rfl rfl, hC.frame' rfl rfl, Delta.of_eq rfl (fun _ => rfl)⟩
+
+theorem activateOne_inv {s : State} (gen2 : Bool) (k : Nat × Nat) (hL : LInv s) (hC : CInvD D s) :
+    LInv (activateOne s gen2 k).1 ∧ CInvD D (activateOne s gen2 k).1 ∧ Delta s (activateOne s gen2 k).1 := by
+  have same : LInv s ∧ CInvD D s ∧ Delta s s := ⟨hL, hC, Delta.refl _⟩
+  have viaGet : ∀ {x : Int} {s1 : State} (m : AMap), getAmount s k x = some s1 →
+      (LInv s1 ∧ CInvD D s1 ∧ Delta s s1) ∧ (LInv (setActive s1 k m) ∧ CInvD D (setActive s1 k m) ∧ Delta s (setActive s1 k m)) := by
+    intro x s1 m hg
+    obtain ⟨a, b, c⟩ := getAmount_core_inv hL hC hg
+    obtain ⟨a', b', c'⟩ := setActive_inv k m a b
+    exact ⟨⟨a, b, c⟩, ⟨a', b', c.trans c'⟩⟩
+  unfold activateOne
+  split
+  · exact same
+  · rename_i m hm
+    split
+    · exact same
+    · split
+      · rename_i c v hc hv
+        split
+        · split
+          · split
+            · exact setActive_inv k m hL hC
+            · exact same
+          · split
+            · split
+              · exact same
+              · rename_i s1 hg
+                split
+                · exact (viaGet m hg).2
+                · exact (viaGet m hg).1
+            · exact same
+        · split
+          · split
+            · split
+              · exact same
+              · rename_i s1 hg
+                exact (viaGet m hg).2
+            · exact same
+          · split
+            · split
+              · exact setActive_inv k m hL hC
+              · exact same
+            · exact same
+      · exact same
+
+theorem activate_inv (gen2 : Bool) (keys : List (Nat × Nat)) : ∀ {s : State}, LInv s → CInvD D s →
+    LInv (activate s gen2 keys) ∧ CInvD D (activate s gen2 keys) ∧ Delta s (activate s gen2 keys) := by
+  induction keys with
+  | nil => intro s hL hC; exact ⟨hL, hC, Delta.refl _⟩
+  | cons k ks ih =>
+    intro s hL hC
+    obtain ⟨a, b, c⟩ := activateOne_inv (D := D) gen2 k hL hC
+    simp only [activate]
+    split
+    · exact ⟨a, b, c⟩
+    · obtain ⟨a', b', c'⟩ := ih a b
+      exact ⟨a', b', c.trans c'⟩
+
+/-- What a start decision can do to one entry: nothing; or (debt) raise the active flag when `netFees ≤ debtThreshold − lot`;
+or (surplus) take exactly the lot through `GetAmountFromCollector` when `netFees ≥ surplusThreshold + lot`, raising the flag
+unless (second generation, English auctions not activated) the sweep aborts after the lot has left. -/
+theorem activateOne_spec (s : State) (gen2 : Bool) (k : Nat × Nat) :
+    (activateOne s gen2 k).1 = s ∨
+    (∃ m c, Store.get s.amap k = some m ∧ Store.get s.collk k = some c ∧ m.active = false ∧ k.1 ∉ s.killOn ∧
+        (gen2 = false → k.1 ∉ s.esmOn) ∧
+      ((m.debt = true ∧ fee s k ≤ c.debtThr - c.lot ∧ (activateOne s gen2 k).1 = setActive s k m) ∨
+       (m.surplus = true ∧ c.surplusThr + c.lot ≤ fee s k ∧ ∃ s1, getAmount s k c.lot = some s1 ∧
+          ((activateOne s gen2 k).1 = setActive s1 k m ∨
+           (gen2 = true ∧ k.1 ∉ s.englishOn ∧ (activateOne s gen2 k) = (s1, true)))))) := by
+  unfold activateOne
+  split
+  · exact Or.inl rfl
+  · rename_i m hm
+    split
+    · exact Or.inl rfl
+    · rename_i hoff
+      simp only [Bool.or_eq_true, Bool.and_eq_true, decide_eq_true_eq, Bool.not_eq_true', not_or, not_and] at hoff
+      obtain ⟨⟨hact, hkill⟩, hesm⟩ := hoff
+      have hact' : m.active = false := by simpa using hact
+      split
+      · rename_i c v hc hv
+        have hfee : fee s k = v := by simp [fee, hv]
+        split
+        · rename_i hg2
+          split
+          · rename_i hd
+            split
+            · exact Or.inr ⟨m, c, hm, hc, hact', hkill, fun e => by simp [hg2] at e, Or.inl ⟨hd.2, by rw [hfee]; exact hd.1, rfl⟩⟩
+            · exact Or.inl rfl
+          · split
+            · rename_i hsur
+              split
+              · exact Or.inl rfl
+              · rename_i s1 hg
+                split
+                · exact Or.inr ⟨m, c, hm, hc, hact', hkill, fun e => by simp [hg2] at e,
+                    Or.inr ⟨hsur.2, by rw [hfee]; exact hsur.1, s1, hg, Or.inl rfl⟩⟩
+                · rename_i heng
+                  exact Or.inr ⟨m, c, hm, hc, hact', hkill, fun e => by simp [hg2] at e,
+                    Or.inr ⟨hsur.2, by rw [hfee]; exact hsur.1, s1, hg, Or.inr ⟨hg2, heng, rfl⟩⟩⟩
+            · exact Or.inl rfl
+        · rename_i hg2
+          have hg2' : gen2 = false := by simpa using hg2
+          have hesm' : k.1 ∉ s.esmOn := by
+            intro hin; have := hesm (by simp [hg2']); exact this hin
+          split
+          · rename_i hsur
+            split
+            · rename_i hthr
+              split
+              · exact Or.inl rfl
+              · rename_i s1 hg
+                exact Or.inr ⟨m, c, hm, hc, hact', hkill, fun _ => hesm',
+                  Or.inr ⟨hsur, by rw [hfee]; exact hthr, s1, hg, Or.inl rfl⟩⟩
+            · exact Or.inl rfl
+          · split
+            · rename_i hdebt
+              split
+              · rename_i hthr
+                exact Or.inr ⟨m, c, hm, hc, hact', hkill, fun _ => hesm', Or.inl ⟨hdebt, by rw [hfee]; exact hthr, rfl⟩⟩
+              · exact Or.inl rfl
+            · exact Or.inl rfl
+      · exact Or.inl rfl
+
+/-- `GetAmountFromCollector` takes exactly `x`: record and custody both drop by `x`, the coins arrive in the auction account. -/
+theorem getAmount_exact {s s1 : State} {k : Nat × Nat} {x : Int} (h : getAmount s k x = some s1) :
+    0 ≤ x ∧ x < fee s k ∧ fee s1 k = fee s k - x ∧ bal s1 .collector k.2 = bal s .collector k.2 - x ∧
+    bal s1 .auction k.2 = bal s .auction k.2 + x ∧ s1.lockers = s.lockers ∧ s1.lookup = s.lookup := by
+  unfold getAmount at h
+  split at h; · simp at h
+  rename_i v hv
+  split at h; · simp at h
+  split at h; · simp at h
+  split at h; · simp at h
+  rename_i b hsend
+  rename_i hx hgt
+  obtain ⟨_, _, hb⟩ := Bank.send_spec hsend
+  obtain ⟨_, _, hs'⟩ := decNetFee_spec h
+  have hfee : fee s k = v := by simp [fee, hv]
+  subst hs'
+  refine ⟨by omega, by omega, ?_, ?_, ?_, rfl, rfl⟩
+  · simp only [fee, Store.get_put_self]; simp [fee, hv]
+  · unfold bal; show b.bal _ _ = _; rw [hb]; simp
+  · unfold bal; show b.bal _ _ = _; rw [hb]; simp
 
 /-! ## all operations -/
 
@@ -1289,6 +1464,12 @@ theorem step_inv {s s' : State} {op : Op} (hL : LInv s) (hC : CInvD D s) (hext :
   | surplusFund a b u x => have := surplusFund_inv hL hC h; exact ⟨this.1, this.2.1, fun _ _ => this.2.2⟩
   | v2SurplusClose a b u x => simp [Op.isV2Close] at hv2
   | v2DebtClose a b c d => simp [Op.isV2Close] at hv2
+  | config c =>
+    simp only [step] at h; simp at h; subst h
+    have := config_inv (D := D) c hL hC; exact ⟨this.1, this.2.1, fun _ _ => this.2.2⟩
+  | activate g ks =>
+    simp only [step] at h; simp at h; subst h
+    have := activate_inv (D := D) g ks hL hC; exact ⟨this.1, this.2.1, fun _ _ => this.2.2⟩
 
 /-- a withdrawal pays the owner exactly the requested amount and the locker keeps `net + reward − amount`. -/
 theorem withdraw_pays {s s' : State} {u app asset id : Nat} {amt : Int} {rw : Rw} (hL : LInv s) (hC : CInvD D s) (hok : rw.ok)
@@ -1404,6 +1585,13 @@ theorem cmove_dmg {s s' : State} (hL : LInv s) (hC : CInvD D s) {k : Nat × Nat}
     · have ha' : ¬ a = k.2 := fun e => ha e.symm
       simp [ha, ha']; omega
 
+theorem clearActive_spec {s s' : State} {k : Nat × Nat} (h : clearActive s k = some s') :
+    s'.lockers = s.lockers ∧ s'.lookup = s.lookup ∧ s'.lastId = s.lastId ∧ s'.bank = s.bank ∧ s'.fees = s.fees := by
+  unfold clearActive at h
+  split at h
+  · simp at h
+  · simp at h; subst h; exact ⟨rfl, rfl, rfl, rfl, rfl⟩
+
 theorem v2SurplusClose_inv {s s' : State} {app asset u : Nat} {lot : Int} (hL : LInv s) (hC : CInvD D s)
     (h : step s (.v2SurplusClose app asset u lot) = some s') :
     LInv s' ∧ CInvD (fun a => D a + (Op.v2SurplusClose app asset u lot).dmg a) s' := by
@@ -1412,18 +1600,23 @@ theorem v2SurplusClose_inv {s s' : State} {app asset u : Nat} {lot : Int} (hL : 
   rename_i b1 hs1
   split at h; · simp at h
   rename_i b2 hs2
-  obtain ⟨hx, _, hb1⟩ := Bank.send_spec hs1
-  obtain ⟨_, _, hb2⟩ := Bank.send_spec hs2
-  obtain ⟨_, hs'⟩ := setNetFee_spec h
-  have hf0 := fee_nonneg hC (app, asset)
-  have := cmove_dmg hL hC (s' := s') (k := (app, asset)) (δ := lot) (β := -lot) (γ := 2 * lot)
-    (by rw [hs']; rfl) (by omega)
-    (by intro d; rw [hs']; simp only; rw [hb2, hb1]; by_cases hd : asset = d <;> simp [hd]; omega)
-    (by intro d; rw [hs']; simp only; rw [hb2, hb1]; simp)
-    (by omega) (by omega) (by rw [hs']) (by rw [hs']) (by rw [hs'])
-  refine ⟨this.1, this.2.mono ?_⟩
-  intro a; simp only [Op.dmg]
-  by_cases ha : a = asset <;> simp [ha, hx]
+  cases hset : setNetFee { s with bank := b2 } (app, asset) lot with
+  | none => simp [hset] at h
+  | some s2 =>
+    simp only [hset, Option.bind_some] at h
+    obtain ⟨f1, f2, f3, f4, f5⟩ := clearActive_spec h
+    obtain ⟨hx, _, hb1⟩ := Bank.send_spec hs1
+    obtain ⟨_, _, hb2⟩ := Bank.send_spec hs2
+    obtain ⟨_, hs'⟩ := setNetFee_spec hset
+    have hf0 := fee_nonneg hC (app, asset)
+    have := cmove_dmg hL hC (s' := s2) (k := (app, asset)) (δ := lot) (β := -lot) (γ := 2 * lot)
+      (by rw [hs']; rfl) (by omega)
+      (by intro d; rw [hs']; simp only; rw [hb2, hb1]; by_cases hd : asset = d <;> simp [hd]; omega)
+      (by intro d; rw [hs']; simp only; rw [hb2, hb1]; simp)
+      (by omega) (by omega) (by rw [hs']) (by rw [hs']) (by rw [hs'])
+    refine ⟨this.1.frame' f1 f2 f3 f4, (this.2.frame' f5 f4).mono ?_⟩
+    intro a; simp only [Op.dmg]
+    by_cases ha : a = asset <;> simp [ha, hx]
 
 theorem v2DebtClose_inv {s s' : State} {app asset : Nat} {c d : Int} (hL : LInv s) (hC : CInvD D s)
     (h : step s (.v2DebtClose app asset c d) = some s') :
@@ -1433,17 +1626,22 @@ theorem v2DebtClose_inv {s s' : State} {app asset : Nat} {c d : Int} (hL : LInv 
   cases hc : creditCollector s asset d with
   | none => simp [hc] at h
   | some s1 =>
-    simp [hc] at h
-    obtain ⟨hx, hb, hf, hlo, hlk, hid, _⟩ := creditCollector_spec hc
-    obtain ⟨hc0, hs'⟩ := setNetFee_spec h
-    have := cmove_dmg hL hC (s' := s') (k := (app, asset)) (δ := c) (β := d) (γ := if 0 ≤ c - d then c - d else 0)
-      (by rw [hs']; simp [hf, fee_congr hf]) (by omega)
-      (by intro d'; rw [hs']; simp only; rw [hb]; by_cases hd : asset = d' <;> simp [hd])
-      (by intro d'; rw [hs']; simp only; rw [hb]; simp)
-      (by split <;> omega) (by split <;> omega) (by rw [hs']; exact hlo) (by rw [hs']; exact hlk) (by rw [hs']; exact hid)
-    refine ⟨this.1, this.2.mono ?_⟩
-    intro a; simp only [Op.dmg]
-    by_cases ha : a = asset <;> simp [ha]
+    simp only [hc, Option.bind_some] at h
+    cases hset : setNetFee s1 (app, asset) c with
+    | none => simp [hset] at h
+    | some s2 =>
+      simp only [hset, Option.bind_some] at h
+      obtain ⟨f1, f2, f3, f4, f5⟩ := clearActive_spec h
+      obtain ⟨hx, hb, hf, hlo, hlk, hid, _⟩ := creditCollector_spec hc
+      obtain ⟨hc0, hs'⟩ := setNetFee_spec hset
+      have := cmove_dmg hL hC (s' := s2) (k := (app, asset)) (δ := c) (β := d) (γ := if 0 ≤ c - d then c - d else 0)
+        (by rw [hs']; simp [hf, fee_congr hf]) (by omega)
+        (by intro d'; rw [hs']; simp only; rw [hb]; by_cases hd : asset = d' <;> simp [hd])
+        (by intro d'; rw [hs']; simp only; rw [hb]; simp)
+        (by split <;> omega) (by split <;> omega) (by rw [hs']; exact hlo) (by rw [hs']; exact hlk) (by rw [hs']; exact hid)
+      refine ⟨this.1.frame' f1 f2 f3 f4, (this.2.frame' f5 f4).mono ?_⟩
+      intro a; simp only [Op.dmg]
+      by_cases ha : a = asset <;> simp [ha]
 
 /-- every operation: the locker books stay exact; the collector books lose at most `op.dmg`. -/
 theorem step_invD {s s' : State} {op : Op} (hL : LInv s) (hC : CInvD D s) (hext : op.extOk)
@@ -1466,15 +1664,311 @@ theorem repairedSurplusClose_inv {s s' : State} {app asset u : Nat} {lot : Int} 
   rename_i b2 hs2
   obtain ⟨_, _, hb1⟩ := Bank.send_spec hs1
   obtain ⟨_, _, hb2⟩ := Bank.send_spec hs2
-  simp at h; subst h
+  obtain ⟨f1, f2, f3, f4, f5⟩ := clearActive_spec h
   have hl : ∀ d, b2.bal .locker d = s.bank.bal .locker d := by intro d; rw [hb2, hb1]; simp
   have hc : ∀ d, b2.bal .collector d = s.bank.bal .collector d := by intro d; rw [hb2, hb1]; simp
-  refine ⟨⟨hL.idsLe, hL.netNonneg, hL.depEq, ?_, hL.ids, hL.depNonneg⟩, ⟨hC.nonneg, ?_⟩, Delta.of_eq rfl hc⟩
-  · intro a; have := hL.custody a; unfold bal at this ⊢; show _ ≤ b2.bal _ _; rw [hl]; exact this
-  · intro a; have := hC.custody a; unfold bal at this ⊢; show _ ≤ b2.bal _ _ + _; rw [hc]; exact this
+  have hL2 : LInv ({ s with bank := b2 } : State) := by
+    refine ⟨hL.idsLe, hL.netNonneg, hL.depEq, ?_, hL.ids, hL.depNonneg⟩
+    intro a; have := hL.custody a; unfold bal at this ⊢; show _ ≤ b2.bal _ _; rw [hl]; exact this
+  have hC2 : CInvD D ({ s with bank := b2 } : State) := by
+    refine ⟨hC.nonneg, ?_⟩
+    intro a; have := hC.custody a; unfold bal at this ⊢; show _ ≤ b2.bal _ _ + _; rw [hc]; exact this
+  refine ⟨hL2.frame' f1 f2 f3 f4, hC2.frame' f5 f4, ?_⟩
+  intro a; unfold bal; rw [f5, f4]; show _ - b2.bal _ _ = _; rw [hc]
 
 theorem repairedDebtClose_inv {s s' : State} {app asset : Nat} {c d : Int} (hL : LInv s) (hC : CInvD D s)
-    (h : stepRepaired s (.v2DebtClose app asset c d) = some s') : LInv s' ∧ CInvD D s' ∧ Delta s s' :=
-  auctionReturn_inv (app := app) (asset := asset) (x := d) hL hC h
+    (h : stepRepaired s (.v2DebtClose app asset c d) = some s') : LInv s' ∧ CInvD D s' ∧ Delta s s' := by
+  simp only [stepRepaired] at h
+  cases h1 : ((creditCollector s asset d).bind fun s1 => setNetFee s1 (app, asset) d) with
+  | none => simp [h1] at h
+  | some s2 =>
+    simp only [h1, Option.bind_some] at h
+    obtain ⟨f1, f2, f3, f4, f5⟩ := clearActive_spec h
+    obtain ⟨a, b, c'⟩ := auctionReturn_inv (app := app) (asset := asset) (x := d) hL hC h1
+    refine ⟨a.frame' f1 f2 f3 f4, b.frame' f5 f4, ?_⟩
+    intro x; have := c' x; unfold bal at this ⊢; rw [f5, f4]; exact this
+
+/-! ## the reward computed inside the model -/
+
+theorem LInv.frame {s s' : State} (h : LInv s) (h1 : s'.lockers = s.lockers) (h2 : s'.lookup = s.lookup)
+    (h3 : s'.lastId = s.lastId) (h4 : s'.bank = s.bank) : LInv s' := by
+  refine ⟨?_, ?_, ?_, ?_, ?_, ?_⟩
+  · rw [h1, h3]; exact h.idsLe
+  · rw [h1]; exact h.netNonneg
+  · intro k; have := h.depEq k; unfold dep at this ⊢; rw [h1, h2]; exact this
+  · intro a; have := h.custody a; unfold bal at this ⊢; rw [h2, h4]; exact this
+  · rw [h1, h2]; exact h.ids
+  · rw [h2]; exact h.depNonneg
+
+theorem CInvD.frame {s s' : State} (h : CInvD D s) (h1 : s'.fees = s.fees) (h2 : s'.bank = s.bank) : CInvD D s' := by
+  refine ⟨?_, ?_⟩
+  · rw [h1]; exact h.nonneg
+  · intro a; have := h.custody a; unfold bal at this ⊢; rw [h1, h2]; exact this
+
+theorem Delta.frame {s s1 s' : State} (h : Delta s s1) (h1 : s'.fees = s1.fees) (h2 : s'.bank = s1.bank) : Delta s s' := by
+  intro a; have := h a; unfold bal at this ⊢; rw [h1, h2]; exact this
+
+/-- whatever `math.Pow` returned: what is handed to the ledger is admissible — a paid reward is at least one whole unit. -/
+theorem trackerStep_pay_pos (tr x : Dec) (hge : Dec.one ≤ tr + x) : 1 ≤ (Accrual.trackerStep tr x).1 := by
+  have h0 : 0 ≤ tr + x := by simp only [Dec, Dec.one, Dec.P] at *; omega
+  unfold Accrual.trackerStep
+  simp only [hge, if_true]
+  simp only [Dec.truncateInt, Int.tdiv_eq_ediv_of_nonneg h0]
+  simp only [Dec, Dec.one, Dec.P] at *
+  omega
+
+theorem accrue_pay_pos (s : State) (ctx : Ctx) (app asset id : Nat) (pw : Option Int) (ρ : Int)
+    (h : (accrue s ctx app asset id pw).1 = .pay ρ) : 1 ≤ ρ := by
+  unfold accrue at h
+  split at h; · simp at h
+  split at h; · simp at h
+  split at h; · simp at h
+  split at h
+  · split at h
+    · rename_i x hx
+      simp only at h
+      split at h
+      · rename_i hge
+        simp at h
+        rw [← h]
+        exact trackerStep_pay_pos _ _ hge
+      · simp at h
+    · simp at h
+  · simp at h
+
+theorem accrue_ok (s : State) (ctx : Ctx) (app asset id : Nat) (pw : Option Int) : (accrue s ctx app asset id pw).1.ok := by
+  cases h : (accrue s ctx app asset id pw).1 with
+  | none => trivial
+  | fail => trivial
+  | pay ρ => have := accrue_pay_pos s ctx app asset id pw ρ h; show 0 ≤ ρ; omega
+
+def OpT.extOk : OpT → Prop
+  | .plain op => op.extOk
+  | _ => True
+
+def OpT.dmg : OpT → Nat → Int
+  | .plain op => op.dmg
+  | _ => fun _ => 0
+
+theorem OpT.dmg_nonneg (op : OpT) (a : Nat) : 0 ≤ op.dmg a := by
+  cases op <;> simp only [OpT.dmg] <;> first | exact Op.dmg_nonneg _ a | exact Int.le_refl 0
+
+theorem setTracker_frame (s : State) (id app : Nat) (t : Option Dec) :
+    (setTracker s id app t).lockers = s.lockers ∧ (setTracker s id app t).lookup = s.lookup ∧
+    (setTracker s id app t).lastId = s.lastId ∧ (setTracker s id app t).bank = s.bank ∧ (setTracker s id app t).fees = s.fees := by
+  cases t <;> simp [setTracker]
+
+theorem book_inv {s1 : State} (id app : Nat) (t : Option Dec) (ctx : Ctx) (hL : LInv s1) (hC : CInvD D s1) :
+    LInv (touch (setTracker s1 id app t) id ctx) ∧ CInvD D (touch (setTracker s1 id app t) id ctx) := by
+  obtain ⟨a, b, c, d, e⟩ := setTracker_frame s1 id app t
+  exact ⟨hL.frame a b c d, hC.frame e d⟩
+
+theorem HasKey.frame {s s' : State} {app asset id : Nat} (h : HasKey s app asset id) (h1 : s'.lockers = s.lockers) :
+    HasKey s' app asset id := by
+  obtain ⟨l, a, b, c⟩ := h; exact ⟨l, by rw [h1]; exact a, b, c⟩
+
+theorem lsrIterT_inv {s s' : State} {ctx : Ctx} {app asset id : Nat} {lsr : Dec} {cbt : Int} {ct : Bool} {pw : Option Int} {cont : Bool}
+    (hL : LInv s) (hC : CInvD D s) (hkey : HasKey s app asset id)
+    (h : lsrIterT s ctx app asset id lsr cbt ct pw = some (s', cont)) :
+    LInv s' ∧ CInvD D s' ∧ (∀ id', HasKey s app asset id' → HasKey s' app asset id') := by
+  unfold lsrIterT at h
+  split at h
+  · rename_i l lt hl hlt
+    split at h
+    · simp at h
+    · simp at h; obtain ⟨h1, _⟩ := h; subst h1; exact ⟨hL, hC, fun _ h => h⟩
+    · rename_i x hx
+      simp only at h
+      split at h
+      · rename_i hge
+        have hL0 : LInv ({ s with trackers := Store.put s.trackers (id, app) (Accrual.trackerStep (tracker s id app) x).2 } : State) :=
+          hL.frame rfl rfl rfl rfl
+        have hC0 : CInvD D ({ s with trackers := Store.put s.trackers (id, app) (Accrual.trackerStep (tracker s id app) x).2 } : State) :=
+          hC.frame rfl rfl
+        have hρ : Rw.ok (.pay (Accrual.trackerStep (tracker s id app) x).1) := by
+          show 0 ≤ _
+          have := trackerStep_pay_pos _ _ hge
+          omega
+        split at h
+        · simp at h
+        · rename_i s1 hit
+          obtain ⟨a, b, _, d, _⟩ := lsrIter_inv hL0 hC0 hρ (hkey.frame rfl) hit
+          simp at h; obtain ⟨h1, _⟩ := h; subst h1
+          exact ⟨a.frame rfl rfl rfl rfl, b.frame rfl rfl, fun id' hk => (d id' (hk.frame rfl)).frame rfl⟩
+        · rename_i s1 r hit
+          obtain ⟨a, b, _, d, _⟩ := lsrIter_inv hL0 hC0 hρ (hkey.frame rfl) hit
+          simp at h; obtain ⟨h1, _⟩ := h; subst h1
+          exact ⟨a, b, fun id' hk => d id' (hk.frame rfl)⟩
+      · simp at h; obtain ⟨h1, _⟩ := h; subst h1
+        exact ⟨hL.frame rfl rfl rfl rfl, hC.frame rfl rfl, fun id' hk => hk.frame rfl⟩
+  · simp at h
+
+theorem lsrLoopT_inv {ctx : Ctx} {app asset : Nat} {lsr : Dec} {cbt : Int} {ct : Bool} (ids : List Nat) :
+    ∀ {s s' : State} {pws : List (Option Int)}, LInv s → CInvD D s → (∀ id ∈ ids, HasKey s app asset id) →
+      lsrLoopT s ctx app asset lsr cbt ct ids pws = some s' → LInv s' ∧ CInvD D s' := by
+  induction ids with
+  | nil => intro s s' pws hL hC _ h; simp [lsrLoopT] at h; subst h; exact ⟨hL, hC⟩
+  | cons id ids ih =>
+    intro s s' pws hL hC hkeys h
+    unfold lsrLoopT at h
+    cases hit : lsrIterT s ctx app asset id lsr cbt ct (pws.headD none) with
+    | none => rw [hit] at h; simp at h
+    | some r =>
+      obtain ⟨s1, cont⟩ := r
+      obtain ⟨hL1, hC1, hk1⟩ := lsrIterT_inv hL hC (hkeys id (by simp)) hit
+      rw [hit] at h
+      cases cont with
+      | false => simp at h; subst h; exact ⟨hL1, hC1⟩
+      | true =>
+        simp only at h
+        exact ih hL1 hC1 (fun id' hid' => hk1 id' (hkeys id' (List.mem_cons_of_mem _ hid'))) h
+
+theorem iterateRewards_inv {s s' : State} {ctx : Ctx} {app asset : Nat} {lsr : Dec} {cbt : Int} {ct : Bool} {pws : List (Option Int)}
+    (hL : LInv s) (hC : CInvD D s) (h : iterateRewards s ctx app asset lsr cbt ct pws = some s') : LInv s' ∧ CInvD D s' := by
+  unfold iterateRewards at h
+  split at h
+  · simp at h; subst h; exact ⟨hL, hC⟩
+  · rename_i lk hlk
+    apply lsrLoopT_inv lk.ids hL hC _ h
+    intro id hid
+    obtain ⟨l, hl, hk⟩ := (hL.ids _ _ hlk).2 id hid
+    simp at hk
+    exact ⟨l, hl, hk.1, hk.2⟩
+
+/-- every timed operation, whatever `math.Pow` returned: the locker books stay exact, the collector books lose at most `dmg`. -/
+theorem stepT_inv {s s' : State} {ctx : Ctx} {op : OpT} (hL : LInv s) (hC : CInvD D s) (hext : op.extOk)
+    (h : stepT s ctx op = some s') : LInv s' ∧ CInvD (fun a => D a + op.dmg a) s' := by
+  have mono0 : ∀ {s1 : State}, CInvD D s1 → CInvD (fun a => D a + 0) s1 := fun hc => hc.mono (fun a => by omega)
+  cases op with
+  | create u app asset amt =>
+    simp only [stepT, Option.map_eq_some_iff] at h
+    obtain ⟨s1, hs, rfl⟩ := h
+    obtain ⟨a, b, _⟩ := create_inv hL hC hs
+    exact ⟨a.frame rfl rfl rfl rfl, mono0 (b.frame rfl rfl)⟩
+  | deposit u app asset id amt pw =>
+    simp only [stepT, Option.map_eq_some_iff] at h
+    obtain ⟨s1, hs, rfl⟩ := h
+    obtain ⟨a, b, _⟩ := deposit_inv hL hC (accrue_ok s ctx app asset id pw) hs
+    obtain ⟨a', b'⟩ := book_inv id app _ ctx a b
+    exact ⟨a', mono0 b'⟩
+  | withdraw u app asset id amt pw =>
+    simp only [stepT, Option.map_eq_some_iff] at h
+    obtain ⟨s1, hs, rfl⟩ := h
+    obtain ⟨a, b, _⟩ := withdraw_inv hL hC (accrue_ok s ctx app asset id pw) hs
+    obtain ⟨a', b'⟩ := book_inv id app _ ctx a b
+    exact ⟨a', mono0 b'⟩
+  | close u app asset id pw =>
+    simp only [stepT, Option.map_eq_some_iff] at h
+    obtain ⟨s1, hs, rfl⟩ := h
+    obtain ⟨a, b, _⟩ := close_inv hL hC (accrue_ok s ctx app asset id pw) hs
+    exact ⟨a.frame rfl rfl rfl rfl, mono0 (b.frame rfl rfl)⟩
+  | rewardCalc app id pw =>
+    simp only [stepT] at h
+    split at h; · simp at h
+    rename_i l hl
+    simp only [Option.map_eq_some_iff] at h
+    obtain ⟨s1, hs, rfl⟩ := h
+    obtain ⟨a, b, _⟩ := rewardCalc_inv hL hC (accrue_ok s ctx app l.asset id pw) hs
+    split
+    · exact ⟨a, mono0 b⟩
+    · obtain ⟨a', b'⟩ := book_inv id app (some _) ctx a b
+      exact ⟨a', mono0 b'⟩
+  | lsrUpdate app asset c pws =>
+    simp only [stepT] at h
+    split at h; · simp at h
+    rename_i old hold
+    have fin : ∀ {s1 : State} (bh bt : Int), LInv s1 → CInvD D s1 →
+        LInv ({ s1 with collk := Store.put s1.collk (app, asset) { c with bh := bh, bt := bt } } : State) ∧
+        CInvD (fun a => D a + 0) ({ s1 with collk := Store.put s1.collk (app, asset) { c with bh := bh, bt := bt } } : State) :=
+      fun _ _ a b => ⟨a.frame rfl rfl rfl rfl, mono0 (b.frame rfl rfl)⟩
+    split at h
+    · split at h
+      · simp only [Option.map_eq_some_iff] at h
+        obtain ⟨s1, hs, rfl⟩ := h
+        obtain ⟨a, b⟩ := iterateRewards_inv hL hC hs
+        exact fin _ _ a b
+      · split at h
+        · simp at h; subst h; exact fin _ _ hL hC
+        · split at h
+          · simp only [Option.map_eq_some_iff] at h
+            obtain ⟨s1, hs, rfl⟩ := h
+            obtain ⟨a, b⟩ := iterateRewards_inv hL hC hs
+            exact fin _ _ a b
+          · simp at h; subst h; exact fin _ _ hL hC
+    · simp at h; subst h; exact fin _ _ hL hC
+  | wlReward app asset =>
+    simp only [stepT] at h
+    split at h; · simp at h
+    split at h
+    · simp at h; subst h; exact ⟨hL, mono0 hC⟩
+    · simp at h; subst h; exact ⟨hL.frame rfl rfl rfl rfl, mono0 (hC.frame rfl rfl)⟩
+  | plain op =>
+    simp only [stepT] at h
+    split at h
+    · exact step_invD hL hC hext h
+    · simp at h
+
+/-! ## a paid reward never exceeds the recorded net fees of its (app, asset) -/
+
+theorem reward_pay_le_fee {s s1 : State} {id app asset : Nat} {ρ : Int} (hρ : 0 ≤ ρ) {l : Locker}
+    (hl : Store.get s.lockers id = some l) (hasset : l.asset = asset) (h : reward s id app asset (.pay ρ) = some s1) :
+    ρ ≤ fee s (app, asset) ∧ fee s1 (app, asset) = fee s (app, asset) - ρ := by
+  simp only [reward] at h
+  obtain ⟨_, l0, _, hl0, hle, _, hfees, _⟩ := payReward_spec hρ h
+  rw [hl] at hl0; cases hl0
+  subst hasset
+  refine ⟨hle, ?_⟩
+  unfold fee at *
+  rw [hfees, Store.get_put_self]; rfl
+
+/-- the reward step inside a successful deposit / withdraw / close / reward-calc message -/
+theorem msg_reward_some {s s' : State} {op : Op} (h : step s op = some s') :
+    (∀ u app asset id amt rw, op = .deposit u app asset id amt rw →
+      ∃ l s1, Store.get s.lockers id = some l ∧ l.asset = asset ∧ reward s id app asset rw = some s1) ∧
+    (∀ u app asset id amt rw, op = .withdraw u app asset id amt rw →
+      ∃ l s1, Store.get s.lockers id = some l ∧ l.asset = asset ∧ reward s id app asset rw = some s1) ∧
+    (∀ u app asset id rw, op = .close u app asset id rw →
+      ∃ l s1, Store.get s.lockers id = some l ∧ l.asset = asset ∧ reward s id app asset rw = some s1) ∧
+    (∀ app id rw, op = .rewardCalc app id rw →
+      ∃ l, Store.get s.lockers id = some l ∧ reward s id app l.asset rw = some s') := by
+  refine ⟨?_, ?_, ?_, ?_⟩
+  · intro u app asset id amt rw e; subst e
+    simp only [step] at h
+    split at h; · simp at h
+    split at h; · simp at h
+    split at h; · simp at h
+    split at h; · simp at h
+    rename_i l hg
+    obtain ⟨hl, hasset, _⟩ := lockerGuards_spec hg
+    split at h; · simp at h
+    rename_i s1 hrw
+    exact ⟨l, s1, hl, hasset, hrw⟩
+  · intro u app asset id amt rw e; subst e
+    simp only [step] at h
+    split at h; · simp at h
+    split at h; · simp at h
+    rename_i l hg
+    obtain ⟨hl, hasset, _⟩ := lockerGuards_spec hg
+    split at h; · simp at h
+    split at h; · simp at h
+    rename_i s1 hrw
+    exact ⟨l, s1, hl, hasset, hrw⟩
+  · intro u app asset id rw e; subst e
+    simp only [step] at h
+    split at h; · simp at h
+    split at h; · simp at h
+    rename_i l hg
+    obtain ⟨hl, hasset, _⟩ := lockerGuards_spec hg
+    split at h; · simp at h
+    rename_i s1 hrw
+    exact ⟨l, s1, hl, hasset, hrw⟩
+  · intro app id rw e; subst e
+    simp only [step] at h
+    split at h; · simp at h
+    split at h; · simp at h
+    split at h; · simp at h
+    rename_i l hl
+    split at h; · simp at h
+    exact ⟨l, hl, h⟩
 
 end Comdex.Locker
